@@ -16,10 +16,13 @@ Scripts that do not finish (10 s / 1 GiB watchdog in a sub-process, confirmed by
 Terminates violations.
 """
 import bisect, json, os, re
+from concurrent.futures import ThreadPoolExecutor
 import vlib
 
 SIGNALS = ["logs", "traces", "metrics", "profiles"]
-BYTES_CLASS = {0: 0, 1: 120, 2: 500, 3: 1500, 4: 4000}     # max_size classes of the generator -> bytes
+# max_size classes of the generator -> bytes (5, 6: for payloads made of elements of almost no size)
+BYTES_CLASS = {0: 0, 1: 120, 2: 500, 3: 1500, 4: 4000, 5: 60, 6: 300}
+STD = list(range(1, 10))                                    # the standard shapes (TelemetryShape!StdShapes)
 KNOWN_PROFILE = "SizeBound: profiles are not split below one profile (the part is one whole profile holding several samples)"
 KNOWN_DESCRIPTOR = ("Identity: metrics, the split-off part of a metric has an empty descriptor (name/unit/description/metadata "
                     "empty, temporality/monotonicity default) and nothing else of its context differs")
@@ -35,14 +38,15 @@ def tla_set(xs):
     return "{" + ", ".join(xs) + "}"
 
 
-def gen_params(n, shapes, confs, bigmax):
+def gen_params(n, shapes, confs, bigmax, fills):
     return """-------------------------- MODULE BatcherGenParams --------------------------
 ParamN        == %d
 ParamShapeSel == %s
+ParamFillSel  == %s
 ParamConfs    == %s
 ParamBigMax   == %d
 =============================================================================
-""" % (n, tla_set(map(str, shapes)), tla_set('<<"%s", %d>>' % c for c in confs), bigmax)
+""" % (n, tla_set(map(str, shapes)), tla_set(map(str, fills)), tla_set('<<"%s", %d>>' % c for c in confs), bigmax)
 
 
 def mc_cfg(Inv=None, **kw):
@@ -58,18 +62,23 @@ def mc_cfg(Inv=None, **kw):
     return base
 
 
-def shapes_lib(c):
-    r = c.tlc("Batcher", "TelemetryShapeLib", cfg_text="INIT LibInit\nNEXT LibNext\nCHECK_DEADLOCK FALSE\n", workers=1,
+def payload_lib(c):
+    """the payload universe as TLC evaluates it (PayloadFill.tla): shapes, fills, masks[shape][fill] of the elements left
+    at their defaults, attributable[fill]"""
+    r = c.tlc("Batcher", "PayloadFillLib", cfg_text="INIT LibInit\nNEXT LibNext\nCHECK_DEADLOCK FALSE\n", workers=1,
               timeout=120, count=False, label="lib", tag="LIB")
-    m = re.search(r'<<\s*"LIB",\s*"([^"]*)"\s*>>', r.out)
-    if not m:
-        raise vlib.Inconclusive("could not obtain the shape library from TLC: %s" % r.out[-800:])
-    return json.loads(m.group(1))
+    if len(r.printed) != 1 or not all(k in r.printed[0] for k in ("shapes", "fills", "masks", "attributable")):
+        raise vlib.Inconclusive("could not obtain the payload library from TLC: %s" % r.out[-800:])
+    lib = r.printed[0]
+    if (len(lib["shapes"]) < 12 or len(lib["fills"]) < 7 or set(lib["fills"][0].values()) != {"none"} or
+            len(lib["masks"]) != len(lib["shapes"]) or any(len(m) != len(lib["fills"]) for m in lib["masks"])):
+        raise vlib.Inconclusive("unexpected payload library")
+    return lib
 
 
-def generate(c, label, n, shapes, confs, bigmax, lib, simulate=None):
+def generate(c, label, n, shapes, confs, bigmax, lib, simulate=None, fills=(1,)):
     r = c.tlc("Batcher", "BatcherGen", workers=1, timeout=900, count=False, label=label, heap="8g",
-              files={"BatcherGenParams.tla": gen_params(n, shapes, confs, bigmax)},
+              files={"BatcherGenParams.tla": gen_params(n, shapes, confs, bigmax, fills)},
               simulate=simulate, depth=n + 2 if simulate else None, seed=c.seed if simulate else None)
     if r.error or r.timed_out:
         raise vlib.Inconclusive("generator %s failed: %s %s" % (label, r.error, r.out[-1500:]))
@@ -78,12 +87,22 @@ def generate(c, label, n, shapes, confs, bigmax, lib, simulate=None):
         for sizer, mx in confs:
             per = 0
             for k in shapes:
-                cnt = sum(sum(sum(sc) for sc in res) for res in lib[k - 1])
-                per += (min(cnt, bigmax) + 1) if sizer == "bytes" else 1
+                cnt = sum(sum(sum(sc) for sc in res) for res in lib["shapes"][k - 1])
+                per += ((min(cnt, bigmax) + 1) if sizer == "bytes" else 1) * len(fills)
             exp += per ** n
         if len(r.printed) != exp:
             raise vlib.Inconclusive("generator %s printed %d behaviours, expected %d" % (label, len(r.printed), exp))
     return r.printed
+
+
+def req_spec(lib, k, big, f, **kw):
+    """one request of a script: its shape, the big item, and (unless it is the ordinary fill 1) the mask of what is left
+    at its defaults"""
+    d = dict(shape=lib["shapes"][k - 1], big=[big] if big else [])
+    if f != 1:
+        d["fill"] = lib["masks"][k - 1][f - 1]
+    d.update(kw)
+    return d
 
 
 def flat_paths(shape):
@@ -101,7 +120,7 @@ def split_scripts(behs, lib, signals, sid0):
     for i, b in enumerate(behs):
         for sig in signals:
             mx = b["max"] if b["sizer"] == "items" else BYTES_CLASS[b["max"]]
-            reqs = [dict(shape=lib[k - 1], big=[big] if big else []) for k, big in b["reqs"]]
+            reqs = [req_spec(lib, k, big, f) for k, big, f in b["reqs"]]
             s = dict(sid=sid0 + len(out), kind="split", signal=sig, sizer=b["sizer"], max=mx, reqs=reqs)
             if b["sizer"] == "items":
                 s["expect"] = b["expect"]
@@ -110,9 +129,12 @@ def split_scripts(behs, lib, signals, sid0):
 
 
 def batch_scripts(c, behs, lib, count, sid0):
-    """the same request sequences through the real queue + batcher: inputs only, nothing expected"""
+    """the same request sequences through the real queue + batcher: inputs only, nothing expected.  The callbacks are
+    observed here, so every item must be attributable to its request: a fill that blanks resources is replaced by one
+    that does not (PayloadFill!Attributable)"""
     rng = c.rng
     out = []
+    att = [f + 1 for f, a in enumerate(lib["attributable"]) if a and f > 0]
     for i in range(count):
         b = behs[rng.randrange(len(behs))]
         items = b["sizer"] == "items"
@@ -121,7 +143,8 @@ def batch_scripts(c, behs, lib, count, sid0):
             mn = rng.choice([0, 1, mx, max(1, mx // 2), mx])
         else:
             mn = rng.choice([0, 1, 3, 6]) if items else rng.choice([0, 200, 800])
-        reqs = [dict(shape=lib[k - 1], big=[big] if big else [], gap_us=rng.choice([0, 0, 200, 2000])) for k, big in b["reqs"]]
+        reqs = [req_spec(lib, k, big, f if lib["attributable"][f - 1] else rng.choice(att), gap_us=rng.choice([0, 0, 200, 2000]))
+                for k, big, f in b["reqs"]]
         # more requests than the behaviour has: repeat it (ids stay distinct, the driver numbers requests)
         if rng.random() < 0.5:
             reqs = reqs + [dict(r, gap_us=rng.choice([0, 500, 5000])) for r in reqs]
@@ -308,27 +331,34 @@ def run(c):
     if not q:
         mcs += [dict(MaxSize=1, MinSize=0), dict(MaxSize=3, MinSize=1), dict(Sizer='"bytes"', MaxSize=5, MinSize=5),
                 dict(Reqs='{"r1", "r2", "r3", "r4"}', Sizer='"bytes"', MaxSize=2, MinSize=1), dict(MaxSize=4, MinSize=4, CanFail="FALSE")]
-    for i, kw in enumerate(mcs):
-        c.tlc_must_pass("Batcher", "BatcherMC", cfg_text=mc_cfg(**kw), coverage=(i == 0), timeout=900, label="design%d" % i)
+    # the design runs are independent of each other: side by side (most of their time is JVM start-up)
+    W = max(2, min(6, vlib.NCPU // 4))
+    with ThreadPoolExecutor(max_workers=4) as ex:
+        fs = [ex.submit(c.tlc_must_pass, "Batcher", "BatcherMC", cfg_text=mc_cfg(**kw), coverage=(i == 0), timeout=900,
+                        label="design%d" % i, workers=W) for i, kw in enumerate(mcs)]
+        rid = dict(Reqs='{"r2", "r5", "r1"}', Sizer='"bytes"', MaxSize=3, MinSize=2)
+        fhang = ex.submit(c.tlc, "Batcher", "BatcherMC", cfg_text=mc_cfg(Sizer='"bytes"', MaxSize=3, MinSize=2, Oversized='"hang"'),
+                          timeout=300, label="design_hang", count=False, workers=W)
+        fatt = ex.submit(c.tlc, "Batcher", "BatcherMC", cfg_text=mc_cfg(Inv="Property", **rid), timeout=300, label="design_attach",
+                         count=False, workers=W)
+        frep = ex.submit(c.tlc_must_pass, "Batcher", "BatcherMC", cfg_text=mc_cfg(Inv="Property", AttachFirst='"ifgrew"', **rid),
+                         timeout=300, label="design_repaired", workers=W)
+        for f in fs + [frep]:
+            f.result()
+        hang, att = fhang.result(), fatt.result()
     # non-vacuity 1: the pinned MergeSplit (an oversized item is never extracted) must violate Terminates
-    hang = c.tlc("Batcher", "BatcherMC", cfg_text=mc_cfg(Sizer='"bytes"', MaxSize=3, MinSize=2, Oversized='"hang"'), timeout=300,
-                 label="design_hang", count=False)
     if hang.ok or hang.error != ("invariant", "PropertyKnown"):
         raise vlib.Inconclusive("the model of the non-terminating MergeSplit does not violate Terminates: %s" % (hang.error,))
     c.extra["design_hang_model"] = "Oversized=hang violates PropertyKnown (Terminates) after %d states, as it must" % hang.distinct
     # open finding C04-done-first-part at design level: the tree's variant (AttachFirst = "always") must reach the known
     # predicate, i.e. violate the plain Property (DoneErrIff); the repaired variant ("ifgrew") must satisfy it
-    rid = dict(Reqs='{"r2", "r5", "r1"}', Sizer='"bytes"', MaxSize=3, MinSize=2)
-    att = c.tlc("Batcher", "BatcherMC", cfg_text=mc_cfg(Inv="Property", **rid), timeout=300, label="design_attach", count=False)
     if att.ok or att.error != ("invariant", "Property"):
         raise vlib.Inconclusive("the model of the unconditional callback attachment does not violate DoneErrIff: %s" % (att.error,))
     c.extra["design_attach_model"] = "AttachFirst=always violates the plain Property (DoneErrIff) after %d states" % att.distinct
     if c.match_finding(KNOWN_ATTACH) is not None:       # a counterexample of the model alone is never a violation
         c.violation("design level: DoneErrIff is reachable in Batcher.tla with AttachFirst=always", signature=KNOWN_ATTACH)
-    c.tlc_must_pass("Batcher", "BatcherMC", cfg_text=mc_cfg(Inv="Property", AttachFirst='"ifgrew"', **rid), timeout=300,
-                    label="design_repaired")
     binp = c.go_build("batcher", pkg="./cmd")
-    lib = shapes_lib(c)
+    lib = payload_lib(c)
 
     if c.replay:
         rp = json.load(open(c.replay))["replay"]
@@ -341,22 +371,36 @@ def run(c):
         return
 
     # ------------------------------------------------------------------ 2. generated behaviours
-    all_shapes = list(range(1, len(lib) + 1))
+    # ordinary payloads (fill 1: everything carries content) over the standard shapes, and payloads with elements left
+    # at their defaults (fills 2..7: anonymous items, empty metric entries, blank scopes / resources) over shapes with
+    # long runs of such elements and with the small max_size classes that make a split fall inside a run
+    all_shapes = list(range(1, len(lib["shapes"]) + 1))
+    all_fills = list(range(1, len(lib["fills"]) + 1))
     items_confs = [("items", m) for m in (0, 1, 2, 3, 5)]
     bytes_confs = [("bytes", k) for k in (0, 1, 2, 3)]
-    behs = []
+    sim_confs = items_confs + bytes_confs + [("bytes", 4), ("bytes", 5), ("bytes", 6)]
+    jobs = []
     if q:
-        behs += generate(c, "gen_items", 2, all_shapes, items_confs, 0, lib)
-        behs += generate(c, "gen_bytes", 2, [1, 2, 5, 6, 9], bytes_confs, 1, lib)
-        behs += generate(c, "gen_sim", 4, all_shapes, items_confs + bytes_confs + [("bytes", 4)], 2, lib, simulate="num=150")
+        jobs += [("gen_items", 2, STD, items_confs, 0, None, (1,)),
+                 ("gen_bytes", 2, [1, 2, 5, 6, 9], bytes_confs, 1, None, (1,)),
+                 ("gen_fill_items", 2, [6, 9, 12], [("items", 2), ("items", 5)], 0, None, (1, 3, 4, 7)),
+                 ("gen_fill_bytes", 2, [9, 10, 12], [("bytes", 5), ("bytes", 1), ("bytes", 6)], 0, None, all_fills),
+                 ("gen_sim", 4, all_shapes, sim_confs, 2, "num=150", all_fills)]
     else:
-        behs += generate(c, "gen_items2", 2, all_shapes, items_confs + [("items", 4), ("items", 7)], 0, lib)
-        behs += generate(c, "gen_items3", 3, [2, 3, 5, 6, 9], items_confs, 0, lib)
-        behs += generate(c, "gen_bytes2", 2, all_shapes, bytes_confs + [("bytes", 4)], 2, lib)
-        behs += generate(c, "gen_bytes3", 3, [2, 5, 6], bytes_confs, 1, lib)
-        for k in range(3):
+        jobs += [("gen_items2", 2, STD, items_confs + [("items", 4), ("items", 7)], 0, None, (1,)),
+                 ("gen_items3", 3, [2, 3, 5, 6, 9], items_confs, 0, None, (1,)),
+                 ("gen_bytes2", 2, STD, bytes_confs + [("bytes", 4)], 2, None, (1,)),
+                 ("gen_bytes3", 3, [2, 5, 6], bytes_confs, 1, None, (1,)),
+                 ("gen_fill_items2", 2, [3, 6, 9, 11, 12], [("items", 1), ("items", 2), ("items", 5)], 0, None, all_fills),
+                 ("gen_fill_bytes2", 2, [6, 9, 10, 11, 12], [("bytes", k) for k in (5, 1, 6, 2, 3)], 0, None, all_fills),
+                 ("gen_fill_bytes3", 3, [10, 12], [("bytes", 5), ("bytes", 1), ("bytes", 6)], 0, None, (1, 2, 4, 6))]
+        jobs += [("gen_sim%d" % k, 6, all_shapes, sim_confs, 3, "num=500", all_fills) for k in range(3)]
+    behs = []
+    for label, n, shapes, confs, bigmax, sim, fills in jobs:
+        if sim and not q:
             c.seed += 1000
-            behs += generate(c, "gen_sim%d" % k, 6, all_shapes, items_confs + bytes_confs + [("bytes", 4)], 3, lib, simulate="num=500")
+        behs += generate(c, label, n, shapes, confs, bigmax, lib, simulate=sim, fills=fills)
+    if not q:
         c.seed -= 3000
     c.exhaustive = True
     scripts = split_scripts(behs, lib, SIGNALS, 1)
